@@ -37,7 +37,8 @@ type Call struct {
 	Fn   string   `json:"fn,omitempty"`
 	Mode string   `json:"mode,omitempty"` // "q" arguments quoted (function receives the objects), "r" raw forms
 	Args []string `json:"args,omitempty"`
-	Hex  string   `json:"hex,omitempty"` // reader input
+	Bind []string `json:"bind,omitempty"` // variable, value descriptor, ...: bound by a let around the call
+	Hex  string   `json:"hex,omitempty"`  // reader input
 }
 
 // Res is the classified outcome of one call.
@@ -123,6 +124,14 @@ func execCall(scope *slip.Scope, c Call) (r Res) {
 			o = quoteIfNeeded(o)
 		}
 		form = append(form, o)
+	}
+	if 1 < len(c.Bind) {
+		// (let ((var 'value) ...) (fn args...)): the path Lisp code takes to rebind a special variable
+		var bindings slip.List
+		for i := 0; i+1 < len(c.Bind); i += 2 {
+			bindings = append(bindings, slip.List{slip.Symbol(c.Bind[i]), quoteIfNeeded(buildArg(s, c.Bind[i+1]))})
+		}
+		form = slip.List{slip.Symbol("let"), bindings, form}
 	}
 	_ = s.Eval(form, 0)
 	r.Kind = ev.Value
